@@ -86,7 +86,7 @@ static void cell(unsigned arg, unsigned f, pv_rng* rng, const char* hist, uint64
 }
 
 /* ---------------------------------------------------------------- matrix */
-static uint64_t n_matrix(void) { return NARGS * 32 * 2 * 2 * pv_scaled(4, 60); }
+static uint64_t n_matrix(void) { return NARGS * 32 * 2 * 2 * pv_scaled(4, 300); }
 static void run_matrix(uint64_t idx, pv_rng* rng) {
     unsigned f = (unsigned)(idx % 32); unsigned ai = (unsigned)((idx / 32) % NARGS); bool with_hist = (idx / 32 / NARGS) % 2;
     bool reinject = (idx / 32 / NARGS / 2) % 2;          /* dependencies injected again between the enabling call and the use: must not touch the feature mask */
@@ -107,7 +107,7 @@ static void run_matrix(uint64_t idx, pv_rng* rng) {
 }
 
 /* ---------------------------------------------------------------- histories: enabling calls interleaved with creates */
-static uint64_t n_hist(void) { return pv_scaled(3000, 100000); }
+static uint64_t n_hist(void) { return pv_scaled(3000, 1000000); }
 static void run_hist(uint64_t idx, pv_rng* rng) {
     (void)idx;
     unsigned m = 0; bool known = false;
